@@ -63,7 +63,8 @@ def truth_tests(model: Model, root: Fn):
         for n in g.direct_nodes():
             if not isinstance(n, (ast.If, ast.While, ast.IfExp, ast.Assert)):
                 continue
-            for e, _pol in atoms(n.test, True):
+            from ..rules import effective_test
+            for e, _pol in atoms(effective_test(g, n.test), True):
                 for x in (e.values if isinstance(e, ast.BoolOp) else [e]):
                     while isinstance(x, ast.UnaryOp) and isinstance(x.op, ast.Not):
                         x = x.operand
